@@ -301,6 +301,41 @@ func VerifC13_Mac0() {
 	var again Mac0[[]byte, []byte]
 	verif.Assert(again.Digest(alg, key, &payload, aad) == nil, "second Digest succeeds")
 	verif.Assert(verif.BytesEq(again.Value, m0.Value), "recomputing the MAC over the same object yields the same tag")
+	// verification as callers do it: keep the received tag, recompute, compare.
+	// A received tag of the right length but arbitrary content must compare unequal
+	// unless it is the genuine tag.
+	received := Mac0[[]byte, []byte]{Value: verif.Bytes("receivedtag", len(ref))}
+	received.Payload = cbor.NewByteWrap(payload)
+	kept := received.Value
+	keptCopy := append([]byte{}, received.Value...)
+	verif.Assert(received.Digest(alg, key, nil, aad) == nil, "verifier recomputes the tag")
+	if verif.BytesEq(received.Value, kept) {
+		verif.Assert(verif.BytesEq(keptCopy, ref), "the recompute-and-compare check accepts a received tag only if it is the genuine tag")
+	}
+	verif.Reached("end")
+}
+
+// a payload handed to Verify by the caller (detached-content style) is the payload
+// that is verified - an embedded payload does not take its place
+func VerifC13_SuppliedPayloadIsVerified() {
+	verif.NoPanic()
+	verif.Expect("verified")
+	verif.Bound("C13 supplied payload", "P-256/ES256; object with an embedded payload A (0..2 bytes) or none; Verify called with a payload argument B (0..2 bytes); signature arbitrary 64 bytes")
+	key := vKey(vKP256)
+	a := verif.Bytes("pa", verif.Choose("na", 3))
+	b := verif.Bytes("pb", verif.Choose("nb", 3))
+	var s1 Sign1[[]byte, []byte]
+	s1.Protected = HeaderMap{AlgLabel: int64(ES256Alg)}
+	if verif.Choose("embedded", 2) == 1 {
+		s1.Payload = cbor.NewByteWrap(a)
+	}
+	s1.Signature = verif.Bytes("sig", 64)
+	ok, err := s1.Verify(key, &b, nil)
+	if err == nil && ok {
+		digest := verif.HashOf(crypto.SHA256, vRefStructure("Signature1", vRefProtected(int64(ES256Alg)), nil, b))
+		verif.Assert(verif.BytesEq(s1.Signature, verif.IdealSig("ecdsa", key, digest)), "Verify(key, payload B) true => the signature is over B, the payload the verifier supplied")
+		verif.Reached("verified")
+	}
 	verif.Reached("end")
 }
 
